@@ -107,6 +107,12 @@ def run(chk):
     ok = len(dcalls) == 1 and any(dcalls[0] in list(ast.walk(s)) for s in T.body)
     chk.ob("O16.1", "the delegate is called exactly once per attempt, inside the try", ok, dcalls[0] if dcalls else L, f"{len(dcalls)} call(s)")
 
+    # the wrapper is shared by all tasks of an operation type: per-call parameters must not stick to it
+    stores = [n for n in walk_body(call) if isinstance(n, (ast.Assign, ast.AugAssign, ast.AnnAssign)) and
+              any(isinstance(t, ast.Attribute) and isinstance(t.value, ast.Name) and t.value.id == "self" for t in (n.targets if isinstance(n, ast.Assign) else [n.target]))]
+    chk.ob("O16.1", "the call stores nothing on the (shared) wrapper", not stores, stores[0] if stores else call,
+           "" if not stores else f"{short(stores[0], 70)}: one task's retry parameters leak into later tasks using the same wrapper")
+
     # ---- O16.2 / O16.3 outcome classification ------------------------------------------------------------------------------------------------------
     chk.rule("O16.2", "outcome classification per attempt: retry only for {socket timeout, connection error, connection timeout, HTTP 408} under retry-on-timeout and not last, and for a dict "
              "result with success false under retry-on-error and not last; every other exception class raises on all paths; non-dict or successful result returns it; "
@@ -280,6 +286,8 @@ VARIANTS = [
     V("last attempt result retried", "break", _R, "                if last_attempt or not retry_on_error:\n                    return return_value", "                if not retry_on_error:\n                    return return_value", "O16.2"),
     V("default retry-on-timeout False", "break", _R, "        retry_on_timeout = params.get(\"retry-on-timeout\", True)", "        retry_on_timeout = params.get(\"retry-on-timeout\", False)", "O16.1"),
     V("bare except retries everything", "break", _R, "            except elasticsearch.exceptions.TransportError as e:\n                # any other", "            except Exception as e:\n                if not last_attempt:\n                    continue\n                # any other", "O16.2"),
+    V("seed m2: parameter sticks to the shared wrapper", "break", _R, "        retry_until_success = params.get(\"retry-until-success\", self.retry_until_success)\n        if retry_until_success:", "        self.retry_until_success = params.get(\"retry-until-success\", self.retry_until_success)\n        if self.retry_until_success:", "O16.1"),
+    V("seed m3: zero wait period replaced by the default", "break", _R, "        sleep_time = params.get(\"retry-wait-period\", 0.5)", "        sleep_time = params.get(\"retry-wait-period\") or 0.5", "O16.1"),
     # preserving
     V("merge the identical timeout arms", "keep", _R, "            except (socket.timeout, elasticsearch.exceptions.ConnectionError):", "            except (socket.timeout, elasticsearch.exceptions.ConnectionError, elasticsearch.exceptions.ConnectionTimeout):"),
     V("bare raise instead of raise e", "keep", _R, "                # any other transport error (e.g. a serialization error) is neither a timeout nor a connection error: never retry it\n                raise e", "                raise"),
